@@ -97,7 +97,8 @@ class ConstProperty(PropertyProtocol):
         multipart: bool = False,
         quoted: bool = False,
     ) -> str:
-        lit = f"Literal[{self.value.python_code}]"
+        # typing.Literal does not admit floats (PEP 586): a number constant is annotated with its type
+        lit = "float" if isinstance(self.value.raw_value, float) else f"Literal[{self.value.python_code}]"
         if not no_optional and not self.required:
             return f"Union[{lit}, Unset]"
         return lit
